@@ -18,8 +18,14 @@ fn classes(n: usize, same: impl Fn(usize, usize) -> bool) -> Classes {
     out
 }
 
+/// position of a returned name; a name that is not a node of the graph maps to usize::MAX, which no expected set
+/// contains — the answer is then reported as wrong (it used to stop the harness instead)
+fn idx10(b: &Built, name: &N) -> usize {
+    b.names.iter().position(|x| x == name).unwrap_or(usize::MAX)
+}
+
 fn canon_sets(b: &Built, v: &[HashSet<N>]) -> (Vec<BTreeSet<usize>>, bool) {
-    let sets: Vec<BTreeSet<usize>> = v.iter().map(|s| s.iter().map(|x| idx_of(b, x)).collect()).collect();
+    let sets: Vec<BTreeSet<usize>> = v.iter().map(|s| s.iter().map(|x| idx10(b, x)).collect()).collect();
     let total: usize = sets.iter().map(|s| s.len()).sum();
     let union: BTreeSet<usize> = sets.iter().flatten().cloned().collect();
     let ok = sets.iter().all(|s| !s.is_empty()) && total == b.n && union.len() == b.n;
@@ -38,7 +44,7 @@ pub fn check_components(b: &Built, rec: &Recorder, c: &mut Counters, deep_scc: b
     let mk = |clause: &str, call: &str, sub: &str, detail: String| {
         Violation::new(clause, call, format!("{}|{sub}", b.case), format!("{}\n{detail}", b.describe())).with_tags(b.tags()).with_snippet(b.snippet(&format!("    // {call}: {}\n", detail.replace('\n', " "))))
     };
-    let names_of = |s: &BTreeSet<usize>| s.iter().map(|i| b.names[*i]).collect::<Vec<_>>();
+    let names_of = |s: &BTreeSet<usize>| s.iter().map(|i| b.names.get(*i).copied().unwrap_or("<NOT A NODE OF THE GRAPH>")).collect::<Vec<_>>();
     let mut check_partition = |call: &str, sub: &str, r: Result<Result<Vec<HashSet<N>>, graphrs::Error>, PanicInfo>, exp: Option<&Classes>| match r {
         Err(pi) => rec.record(mk("no_panic", call, sub, pi.msg.clone()).with_panic(pi)),
         Ok(r) => match exp {
@@ -110,7 +116,7 @@ pub fn check_components(b: &Built, rec: &Recorder, c: &mut Counters, deep_scc: b
             let exp: BTreeSet<usize> = (0..n).filter(|&v| ureach[x][v]).collect();
             match guarded(|| components::node_connected_component(&b.g, &b.names[x])) {
                 Ok(Ok(s)) => {
-                    let got: BTreeSet<usize> = s.iter().map(|y| idx_of(b, y)).collect();
+                    let got: BTreeSet<usize> = s.iter().map(|y| idx10(b, y)).collect();
                     if got != exp {
                         rec.record(mk("node_component", "components::node_connected_component", &format!("node_cc:{}", b.names[x]), format!("component of {} = {:?}, expected {:?}", b.names[x], names_of(&got), names_of(&exp))));
                     }
@@ -127,7 +133,7 @@ pub fn check_components(b: &Built, rec: &Recorder, c: &mut Counters, deep_scc: b
         match guarded(|| b.g.breadth_first_search(&b.names[x])) {
             Err(pi) => rec.record(mk("no_panic", "Graph::breadth_first_search", &format!("bfs:{}", b.names[x]), pi.msg.clone()).with_panic(pi)),
             Ok(v) => {
-                let got: Vec<usize> = v.iter().map(|y| idx_of(b, y)).collect();
+                let got: Vec<usize> = v.iter().map(|y| idx10(b, y)).collect();
                 let gs: BTreeSet<usize> = got.iter().cloned().collect();
                 if got.first() != Some(&x) || gs != exp || gs.len() != got.len() {
                     rec.record(mk("bfs", "Graph::breadth_first_search", &format!("bfs:{}", b.names[x]), format!("bfs({}) = {:?}, expected {} first and then exactly {:?}", b.names[x], v, b.names[x], names_of(&exp))));
@@ -141,7 +147,7 @@ pub fn check_components(b: &Built, rec: &Recorder, c: &mut Counters, deep_scc: b
         match guarded(|| components::bfs_equal_size_partitions(&b.g, k)) {
             Err(pi) => rec.record(mk("no_panic", "components::bfs_equal_size_partitions", &format!("parts:{k}"), pi.msg.clone()).with_panic(pi)),
             Ok(parts) => {
-                let flat: Vec<usize> = parts.iter().flatten().map(|y| idx_of(b, y)).collect();
+                let flat: Vec<usize> = parts.iter().flatten().map(|y| idx10(b, y)).collect();
                 let set: BTreeSet<usize> = flat.iter().cloned().collect();
                 let bound = n / k + 1;
                 if parts.len() != k || flat.len() != n || set.len() != n || parts.iter().any(|p| p.len() > bound) {
